@@ -70,7 +70,18 @@ def stepShaped (sh : RenderShape) (same : Placement → Placement → Bool) (s :
   | .render => let (s', o) := renderShaped sh same s; (s', some o)
   | .refresh => let (s', o) := renderShaped sh same { s with refresh := true }; (s', some o)
 
-def stepGen : State → Op → State × Option Out := stepShaped renderShape samePlacement
+/-- `Window.Clear` on the next-frame list, from the regenerated form of its assignment (round 4): a fresh empty list;
+    nothing when the assignment is missing; for a re-slice / an unknown right-hand side the model still empties the
+    list (what Go's slice aliasing then does to the saved list is not modelled — `Props.C20Ext.render_shape` fails). -/
+def clearWith (f : ClearForm) (s : State) : State :=
+  match f with
+  | .missing => s
+  | _ => { s with next := [] }
+
+def stepGen (s : State) (op : Op) : State × Option Out :=
+  match op with
+  | .clear => (clearWith clearPlacements s, none)
+  | op => stepShaped renderShape samePlacement s op
 
 def stepWith (same : Placement → Placement → Bool) (s : State) : Op → State × Option Out
   | .draw p => ({ s with next := s.next ++ [p] }, none)
